@@ -321,6 +321,7 @@ func main() {
 	for _, v := range confirmed {
 		fmt.Printf("VIOLATION property=%s replay=%s\n", prop, v)
 	}
+	os.RemoveAll(tmp) // deferred calls do not run on os.Exit
 	if len(confirmed) > 0 {
 		os.Exit(1)
 	}
